@@ -153,6 +153,10 @@ async def _deliver(loop, case, out: Outcome):
             out.v("enqueue-raises", f"enqueue raised {t.exception()!r}")
     started = record.get("_consumer_started", 0.0)
     L = L_LATE[case["broker"]] + lat_sum + 0.01 + 0.02 * len(foreign)
+    if case["broker"] == "redis":
+        # the consumer hands out one message per polling round, and a round sleeps POLLING_WAIT (0.1 s) on every empty priority
+        # above the message's own: messages of the case that are deliverable at the same time queue behind each other
+        L += 0.3 * (len(case["msgs"]) - 1)
     for i in range(len(foreign)):
         kinds = [p.kind for p in pr.get(f"f{i}", [])]
         if len(kinds) != 1 or kinds[0] not in ("waiting", "delayed"):
